@@ -253,11 +253,12 @@ def pure_part(pid, tier, out):
     for v in mine[:15]:
         if data is None:
             data = json.load(open(os.path.join(d, "pure.json")))
-        rec = data[key][v["i"] - 1] if v["i"] > 0 else {"coverage": "the records do not cover the enumerated input space"}
-        path = core.write_replay(pid, "pure", {"kind": "pure", "property": pid, "which": key, "record": rec})
+        k2 = "unitrun" if v["what"] == "C16-run" else key
+        rec = data[k2][v["i"] - 1] if v["i"] > 0 else {"coverage": "the records do not cover the enumerated input space"}
+        path = core.write_replay(pid, "pure", {"kind": "pure", "property": pid, "which": k2, "record": rec})
         out["violations"].append(("%s record %d violates the contract of spec/Pure.tla: %s" % (
-            key, v["i"], json.dumps(rec.get("x", rec))[:300]), path))
-    n = res["counts"][key]
+            k2, v["i"], json.dumps(rec.get("x", rec))[:300]), path))
+    n = res["counts"][key] + (res["counts"].get("unitrun", 0) if pid == "C16" else 0)
     out["extra_traces"] = out.get("extra_traces", 0) + n
     ec = out.setdefault("extra_cov", {})
     ec["pure_function_records_judged"] = n
@@ -452,13 +453,15 @@ def replay(rp, path):
         from harness import pure
         import tempfile, shutil
         wd = tempfile.mkdtemp(prefix="topsim_p_")
-        data = {"plan": [], "config": [], "delay": [], "runtime": [], "exhaustive": False}
+        data = {"plan": [], "config": [], "delay": [], "runtime": [], "unitrun": [], "exhaustive": False}
         try:
             rec = rp["record"]
             if rp["which"] == "plan":
                 data["plan"] = [pure.run_plan(rec["x"], wd)]
             elif rp["which"] == "config":
                 data["config"] = [pure.run_config(rec["x"], wd)]
+            elif rp["which"] == "unitrun":
+                data["unitrun"] = [pure.run_unit_sim(rec["x"], wd)]
             else:
                 full = pure.build("quick", 0, which=(rp["which"],))
                 data[rp["which"]] = full[rp["which"]]
